@@ -258,12 +258,19 @@ func TestVerif_C12_UDPMuxModel(t *testing.T) {
 	lf.DefaultLogLevel = logging.LogLevelDisabled
 	rapid.Check(t, func(rt *rapid.T) {
 		flavourAP := rapid.Bool().Draw(rt, "addrPortFlavour")
+		universal := rapid.IntRange(0, 3).Draw(rt, "universalMux") == 0
 		base := newC12Base("0.0.0.0:7000")
 		var pc net.PacketConn = base
 		if flavourAP {
 			pc = c12BaseAP{base}
 		}
-		mux := NewUDPMuxDefault(UDPMuxParams{Logger: lf.NewLogger("verif"), UDPConn: pc})
+		var mux *UDPMuxDefault
+		if universal {
+			// the universal (srflx) mux wraps the socket and embeds the same UDPMuxDefault: routing must be identical
+			mux = NewUniversalUDPMuxDefault(UniversalUDPMuxParams{Logger: lf.NewLogger("verif"), UDPConn: pc}).UDPMuxDefault
+		} else {
+			mux = NewUDPMuxDefault(UDPMuxParams{Logger: lf.NewLogger("verif"), UDPConn: pc})
+		}
 		defer mux.Close() //nolint:errcheck
 		base.waitReading()
 		var (
@@ -621,7 +628,7 @@ func TestVerif_C12_UDPMuxModel(t *testing.T) {
 			labels = append(labels, l)
 		}
 		nontrivial := lbl["address-takeover"] || (lbl["remove-by-ufrag"] || lbl["close-last-handle"]) || lbl["v4-mapped-alias"]
-		desc := fmt.Sprintf("addrPort=%v %s", flavourAP, strings.Join(ops, "; "))
+		desc := fmt.Sprintf("addrPort=%v universal=%v %s", flavourAP, universal, strings.Join(ops, "; "))
 		st.Record(vfHashStr(desc), nontrivial, labels...)
 		if nontrivial && st.WantSample() {
 			st.Sample(func() string { return desc })
